@@ -197,6 +197,18 @@ def step (s : Eng) (line : String) : Eng × String :=
     (match removeWAL s with | .ok s' => (s', "ok") | .error (s', r) => (s', showRes r))
   | ["drop"] => if !(s.opened && s.hasDB) then (s, "bad-op") else run s (drop s)
   | ["ckpt"] => if !(s.opened && s.hasDB) then (s, "bad-op") else run s (checkpoint s)
+  | ["locks"] =>
+    if !(s.opened && s.hasDB) then (s, "bad-op") else
+    (s, " ".intercalate (LockType.all.map fun l => s!"{l.name.toLower}={(s.locks.state l).toString}"))
+  | ["whold"] =>
+    if !(s.opened && s.hasDB) || s.held.isSome then (s, "bad-op") else
+    (match s.locks.tryAcquireWriteLock s.walMode with
+     | (t, none) => ({ s with locks := t }, "false")
+     | (t, some i) => ({ s with locks := t, held := some i }, "true"))
+  | ["wrelease"] =>
+    (match s.held with
+     | none => (s, "bad-op")
+     | some i => if !(s.opened && s.hasDB) then (s, "bad-op") else ({ s with locks := s.locks.unlockAll i, held := none }, "ok"))
   | ["stray", _] => if !(s.opened && s.hasDB) then (s, "bad-op") else (s, "ok")
   | ["age"] => if !(s.opened && s.hasDB) then (s, "bad-op") else ({ s with ltx := s.ltx.map fun f => { f with old := true } }, "ok")
   | ["retain"] => if !(s.opened && s.hasDB) then (s, "bad-op") else (enforceRetention s, "ok")
